@@ -30,7 +30,7 @@ ASSUMPTIONS = [
     "only bindings that declare a bus are encoded/decoded; bindings without a bus only serve as non-matching controls",
     "message names are longer than 4 characters in some programs (exercises the bus buffer handling)",
 ]
-FLOORS = {"short_bus": 0.2, "non_byte_multiple": 0.2, "unknown_frame": 0.1, "ge2_bindings": 0.5, "compiled": (0.9, "program")}
+FLOORS = {"short_bus": 0.2, "non_byte_multiple": 0.2, "unknown_frame": 0.1, "ge2_bindings": 0.35, "compiled": (0.9, "program")}
 
 preflight = c03.preflight
 
